@@ -2,7 +2,10 @@ module verif/harness
 
 go 1.13
 
-require github.com/pokt-network/posmint v0.0.0
+require (
+	github.com/pokt-network/posmint v0.0.0
+	github.com/tendermint/tm-db v0.2.0
+)
 
 replace github.com/pokt-network/posmint => /repo
 
